@@ -798,6 +798,11 @@ func (ex *Exec) loopWrites(fr *Frame, li *loopInfo) (heap map[string]bool, local
 				for k := range ex.g.siteFrame(in) {
 					heap[k] = true
 				}
+				for _, s := range ex.siteSpecs("ghost-after") {
+					if contains(calleeNames(in.Common()), s.Target) {
+						heap["G|"+s.C.Label] = true
+					}
+				}
 				// closures called in the loop may write the enclosing function's locals: those
 				// are escaping by construction, hence heap keys, already covered by frames.
 			}
